@@ -1718,7 +1718,7 @@ func (s *Store) ServiceAddressNodes(ws memdb.WatchSet, address string, entMeta *
 	if err != nil {
 		return 0, nil, fmt.Errorf("failed parsing service nodes: %s", err)
 	}
-	return 0, results, nil
+	return catalogMaxIndex(tx, entMeta, peerName, false), results, nil
 }
 
 // parseServiceNodes iterates over a services query and fills in the node details,
